@@ -262,9 +262,17 @@ func cmdCheck(args []string) {
 		if matched {
 			continue
 		}
-		violations++
 		rp := filepath.Join(replayDir, fmt.Sprintf("%s_%s.txt", *prop, smtName(o.Name)))
 		found := writeReplay(e, rp, *prop, o, owner[o], vcDir, *repo, *oracleDir, seed, *tier)
+		if !found {
+			// the function uses a construct the encoding over-approximates and that its contract was not written
+			// with: the failed proof may be an artefact of the abstraction, not evidence about the property
+			if extra := unexpectedAbstractions(e, owner[o]); len(extra) > 0 {
+				undecided = append(undecided, fmt.Sprintf("%s: obligation %s failed, but the function now uses %s, which the encoding abstracts; no failing input was found", owner[o].Short, o.Name, strings.Join(extra, ", ")))
+				continue
+			}
+		}
+		violations++
 		ln := fmt.Sprintf("VIOLATION property=%s replay=%s", *prop, rp)
 		if !found {
 			ln += " no-failing-input-found"
@@ -562,4 +570,31 @@ func runOracle(repo, oracleDir, prop string, seed int64, tier string) (bool, str
 		fmt.Sprintf("VERIF_SEED=%d", seed), "VERIF_TIER="+tier)
 	out, err := cmd.CombinedOutput()
 	return err == nil, string(out)
+}
+
+// unexpectedAbstractions lists over-approximated constructs of a function that its contract does not declare (`abstracts`).
+func unexpectedAbstractions(e *Engine, res *FuncResult) []string {
+	if res == nil {
+		return nil
+	}
+	fc := e.Contracts[res.Key]
+	var out []string
+	for _, u := range res.Unsupported {
+		kind := u
+		if k := strings.Index(u, ": "); k >= 0 {
+			kind = u[k+2:]
+		}
+		ok := false
+		if fc != nil {
+			for _, a := range fc.Abstracts {
+				if strings.HasPrefix(kind, a) {
+					ok = true
+				}
+			}
+		}
+		if !ok {
+			out = append(out, kind)
+		}
+	}
+	return out
 }
